@@ -214,6 +214,16 @@ def v2args_table(unit):
                         lhs = base
                     if chain:
                         mem.append(".".join(reversed(chain)))
+                elif x.get("kind") == "CallExpr" and A.callee_name(x) in ("memcpy", "memmove") and len(A.kids(x)) >= 3:
+                    # memcpy(args[k].<member>, ...): a write of that member as a whole
+                    lhs = A.strip_casts(A.kids(x)[1])
+                    chain = []
+                    while lhs.get("kind") in ("MemberExpr", "ArraySubscriptExpr", "UnaryOperator"):
+                        if lhs.get("kind") == "MemberExpr":
+                            chain.append(lhs.get("name"))
+                        lhs = A.strip_casts(A.kids(lhs)[0])
+                    if chain:
+                        mem.append(".".join(reversed(chain)))
         S.written = mem
         if lab == "default":
             dflt = S
@@ -245,3 +255,91 @@ def v2args_class(S):
     if len(va) == 2 and va[0] == "int" and va[1] in ("unsigned char *", "char *"):
         return "blob" if wr == ["b.data", "b.len"] else "?va=%s member=%s" % (va, wr)
     return "?va=%s member=%s" % (va, wr)
+
+
+def extract_arg_classes_eval(unit):
+    """{tag: payload class} of extract_arg by evaluation: the function is run (finite-domain, on the AST, helpers inlined)
+    for every tag on memory holding the bytes 0x81 0x82 ...; the class is read off what arrives in the result union -
+    the big-endian value of 8 or 4 bytes, the bytes themselves (midi), a pointer to the memory (string) or a length and a
+    pointer behind it (blob).  Used when the decoder is not written as the two switches the shape recogniser knows."""
+    fn = unit.function("extract_arg")
+    ps = unit.params(fn)
+    BASE, MADDR = 1 << 17, 1 << 16
+    pat = [0x81 + i for i in range(16)]
+    be = lambda n: int.from_bytes(bytes(pat[:n]), "big")
+    res_decls = [d for d in A.walk(unit.body(fn)) if d.get("kind") == "VarDecl" and "rtosc_arg_t" in (A.stype(d) or "")]
+    if len(res_decls) != 1:
+        raise AnalysisBroken("extract_arg: result variable not found")
+    rid = res_decls[0]["id"]
+    keys = set()
+    for x in A.walk(unit.body(fn)):
+        if x.get("kind") == "MemberExpr":
+            root = x
+            while root.get("kind") in ("MemberExpr", "ImplicitCastExpr", "ParenExpr") and A.kids(root):
+                root = A.kids(root)[0]
+            if root.get("kind") == "DeclRefExpr" and (root.get("referencedDecl") or {}).get("id") == rid:
+                keys.add("member:" + A.src(x).replace(" ", ""))
+    out = {}
+    for tag in "ifsbhtdScrmTFNI":
+        mbytes = {}
+
+        def deref(addr, n):
+            k = addr - BASE
+            if 0 <= k < len(pat):
+                return pat[k]
+            raise FD.Unknown("read outside the probe payload", n)
+
+        def store(addr, v, n, mbytes=mbytes):
+            if MADDR <= addr < MADDR + 4:
+                mbytes[addr - MADDR] = v & 0xff
+                return
+            raise FD.Unknown("store outside the result", n)
+
+        def hook(n, ev):
+            k = n.get("kind")
+            if k == "InitListExpr":
+                return "RES"
+            if k == "MemberExpr" and n.get("name") == "m":
+                return MADDR
+            if k == "UnaryExprOrTypeTraitExpr" and n.get("name") == "sizeof" and A.kids(n) and A.strip(A.kids(n)[0]).get("kind") == "MemberExpr" and A.strip(A.kids(n)[0]).get("name") == "m":
+                return 4
+            return NotImplemented
+
+        def call(nm, vals, n, mbytes=mbytes):
+            if nm in ("memcpy", "memmove") and MADDR <= vals[0] < MADDR + 4:
+                for k_ in range(vals[2]):
+                    mbytes[vals[0] - MADDR + k_] = deref(vals[1] + k_, n)
+                return vals[0]
+            fns_ = [f_ for f_ in unit.functions.get(nm, []) if unit.body(f_) is not None]
+            if len(fns_) == 1:
+                return ev.call_function(unit, fns_[0], vals)
+            raise FD.Unknown("call to %s" % nm, n)
+        env0 = {k_: 0 for k_ in keys}
+        env0[ps[0]["id"]] = BASE
+        env0[ps[1]["id"]] = ord(tag)
+        ev = FD.Eval(env=env0, deref=deref, store=store, node_hook=hook, call=call, max_steps=6000)
+        try:
+            try:
+                ev.run(unit.body(fn))          # (not call_function: the member writes are read from the frame afterwards)
+            except FD._Return:
+                pass
+        except FD.Unknown as e:
+            raise AnalysisBroken("extract_arg not evaluable for tag '%s': %s" % (tag, e))
+        got = {k_[len("member:"):].split(".", 1)[1]: v for k_, v in ev.env.items() if isinstance(k_, str) and k_.startswith("member:") and v}
+        w32 = lambda v: v & 0xffffffff
+        if got.get("s") == BASE and len(got) == 1:
+            c = "string"
+        elif got.get("b.data") == BASE + 4 and w32(got.get("b.len", 0)) == be(4) and set(got) == {"b.data", "b.len"}:
+            c = "blob"
+        elif len(got) == 1 and list(got)[0] in ("t", "h", "d") and (list(got.values())[0] & ((1 << 64) - 1)) == be(8):
+            c = "8"
+        elif len(got) == 1 and list(got)[0] in ("i", "f", "c", "r") and w32(list(got.values())[0]) == be(4):
+            c = "4"
+        elif not got and [mbytes.get(i_) for i_ in range(4)] == pat[:4]:
+            c = "4"
+        elif (not got or set(got) == {"T"}) and not mbytes:
+            c = "none"
+        else:
+            c = "?%s%s" % (sorted(got.items()), sorted(mbytes.items()) if mbytes else "")
+        out[tag] = c
+    return out, fn
